@@ -201,6 +201,10 @@ def check_cli(case, ctx: Ctx):
         out_path = os.path.join(d, "bins.bed")
         if case["to_file"]:
             args += ["-o", out_path]
+        if case["to_file"] and case["w"] % 2 == 0:
+            # the output file already exists (an earlier run at another width): it must be replaced, not extended
+            rc0, _, exc0 = run_cli(["makebins", cs_path, str(w + 3), "-o", out_path])
+            check(rc0 == 0 and exc0 is None, f"makebins (earlier run) exit {rc0}: {exc0!r}")
         rc, out, exc = run_cli(args)
         check(rc == 0 and exc is None, f"makebins exit {rc}: {exc!r}")
         if case["to_file"]:
@@ -251,9 +255,12 @@ def check_cli(case, ctx: Ctx):
 # (d) what a created cooler reports
 # ---------------------------------------------------------------------------
 
-def cooler_cases():
-    return gen.bin_tables(max_chroms=4, max_bins=5, max_width=8).map(
-        lambda bt: {"part": "cooler", "bt": bt})
+@st.composite
+def cooler_cases(draw):
+    bt = draw(gen.bin_tables(max_chroms=4, max_bins=5, max_width=8))
+    # history: the same URI (root or a group) first holds a collection over ANOTHER table and is then re-created in append mode
+    prior = draw(st.one_of(st.none(), gen.bin_tables(max_chroms=3, max_bins=5, max_width=8)))
+    return {"part": "cooler", "bt": bt, "prior": prior, "group": draw(st.sampled_from(["/", "/", "/g"]))}
 
 
 def check_cooler(case, ctx: Ctx):
@@ -263,9 +270,16 @@ def check_cooler(case, ctx: Ctx):
 
     bt = case["bt"]
     path = ctx.tmp(".cool")
+    uri = path if case.get("group", "/") == "/" else path + "::" + case["group"]
     try:
-        call("create_cooler", create_from_model, path, bt, [], h5opts={"compression": None})
-        clr = cooler.Cooler(path)
+        if case.get("prior") is not None:
+            call("create_cooler (earlier collection)", create_from_model, uri, case["prior"], [], h5opts={"compression": None})
+            old = cooler.Cooler(uri)
+            check(old.binsize is None or model.tiles(case["prior"], int(old.binsize)), "earlier collection reports a wrong bin size")
+            call("create_cooler (re-creation, append mode)", create_from_model, uri, bt, [], h5opts={"compression": None}, mode="a")
+        else:
+            call("create_cooler", create_from_model, uri, bt, [], h5opts={"compression": None})
+        clr = cooler.Cooler(uri)
         b = clr.binsize
         info = clr.info
         if b is not None:
@@ -286,7 +300,7 @@ def check_cooler(case, ctx: Ctx):
     kinds = set(bt.get("kinds", []))
     longer_last = any(len(e) >= 3 and (e[-1] - e[-2]) > (e[1] - e[0]) for e in bt["edges"])
     ctx.record(case, bool(kinds - {"fixed"}) or longer_last,
-               ["cooler", "reported-fixed" if b is not None else "reported-variable"])
+               ["cooler", "reported-fixed" if b is not None else "reported-variable", "recreated" if case.get("prior") is not None else "fresh"])
 
 
 CHECKS = {"binnify": check_binnify, "infer": check_infer, "cli": check_cli, "cooler": check_cooler}
